@@ -96,3 +96,25 @@ VARIANTS += [
     ("C05-abs-false", "C05", IV, "return self.__class__(self.start, self.end, absolute=True)", "return self.__class__(self.start, self.end, absolute=False)", "ABS"),
     ("C05-naive-min-sec-swap", "C05", DT, "                    other.minute,\n                    other.second,\n                    other.microsecond,\n                )\n            else:\n                other = self.instance(other)\n\n        return other.diff(self, False)", "                    other.second,\n                    other.minute,\n                    other.microsecond,\n                )\n            else:\n                other = self.instance(other)\n\n        return other.diff(self, False)", "RECON.slot"),
 ]
+
+PYH = "src/pendulum/_helpers.py"
+RSH = "rust/src/python/helpers.rs"
+VARIANTS += [
+    ("C06-clean", "C06", None, "", "", None),
+    ("C06-py-radix", "C06", PYH, "        if min_diff < 0:\n            min_diff += 60", "        if min_diff < 0:\n            min_diff += 24", "BORROW.chain"),
+    ("C06-py-borrow-target", "C06", PYH, "            sec_diff += 60\n            min_diff -= 1", "            sec_diff += 60\n            hour_diff -= 1", "BORROW.chain"),
+    ("C06-py-le", "C06", PYH, "        if hour_diff < 0:", "        if hour_diff <= 0:", "BORROW."),
+    ("C06-py-month-arm", "C06", PYH, "            d_diff = 0\n            m_diff += 1", "            d_diff = 0\n            m_diff += 2", "MONTHBRANCH.agree"),
+    ("C06-py-month-cmp", "C06", PYH, "if d_diff < days_in_month - days_in_last_month:", "if d_diff <= days_in_month - days_in_last_month:", "MONTHBRANCH.agree"),
+    ("C06-py-sign-missing", "C06", PYH, "        sign * mic_diff,", "        mic_diff,", "SIGN.outputs"),
+    ("C06-py-out-swap", "C06", PYH, "        sign * min_diff,\n        sign * sec_diff,", "        sign * sec_diff,\n        sign * min_diff,", "SIGN.outputs"),
+    ("C06-rs-radix", "C06", RSH, "    if hour_diff < 0 {\n        hour_diff += 24;", "    if hour_diff < 0 {\n        hour_diff += 12;", "BORROW.chain"),
+    ("C06-rs-exact-type", "C06", RSH, "is_datetime: PyDateTime::is_type_of_bound(dt2),", "is_datetime: PyDateTime::is_exact_type_of_bound(dt2),", "SYMMETRY.descriptor"),
+    ("C06-rs-month-arm", "C06", RSH, "            Ordering::Greater => {\n                // We have a full month\n                day_diff += days_in_last_month;", "            Ordering::Greater => {\n                // We have a full month\n                day_diff += days_in_month;", "MONTHBRANCH.agree"),
+    ("C06-rs-asym-offset", "C06", RSH, "            if dtinfo2.hour < 0 {\n                dtinfo2.hour += 24;", "            if dtinfo2.hour < 0 {\n                dtinfo2.hour += 25;", "SYMMETRY.offset"),
+    ("C06-rs-sign", "C06", RSH, "        seconds: second_diff * sign,", "        seconds: second_diff,", "SIGN.outputs"),
+    ("C06-in-months", "C06", IV, "return self.years * MONTHS_PER_YEAR + self.months", "return self.years * MONTHS_PER_YEAR + self.months + 1", "INTERVAL.props"),
+    ("C06-neg-noswap", "C06", IV, "return self.__class__(self.end, self.start, self._absolute)", "return self.__class__(self.start, self.end, self._absolute)", "INTERVAL.neg"),
+    ("C06-delta-swapped", "C06", IV, "precise_diff(_start, _end)", "precise_diff(_end, _start)", "INTERVAL.delta"),
+    ("C06-backend-missing", "C06", HELP, "    from pendulum._helpers import week_day\n", "    week_day = None\n", "BACKEND.names"),
+]
